@@ -44,7 +44,9 @@ def _tlc_batch(c, jobs):
     """jobs: [(key, module, cfg, workers, timeout)] run concurrently, each in its own scratch dir."""
     def one(j):
         key, module, cfg, workers, timeout = j
-        r = vlib.tlc(SPEC_DIR, module, cfg, os.path.join(c.work, "tlc-" + key), workers=workers, timeout=timeout, heap="3g")
+        # short runs: the C1 compiler only (JVM warm-up dominates the small models)
+        jo = ["-XX:TieredStopAtLevel=1"] if c.tier == "quick" else None
+        r = vlib.tlc(SPEC_DIR, module, cfg, os.path.join(c.work, "tlc-" + key), workers=workers, timeout=timeout, heap="3g", java_opts=jo)
         _t("tlc %s %s: %d states, %.1fs" % (key, cfg, r.distinct, r.wall))
         return key, r
     with concurrent.futures.ThreadPoolExecutor(max_workers=len(jobs)) as ex:
@@ -112,21 +114,32 @@ def framing_cases(trs):
     return cases
 
 
+SMALL_MAX = 70000
+
+
 def framing_families(tier, rng):
+    """scale true: lengths relative to the node's real MaxPayloadLength (8.25 MiB frames, replayed on a sample of the cases);
+    scale small: the same code with MaxPayloadLength configured to SMALL_MAX (every case)."""
     fams = [
-        dict(mid=47, over=MAXP + 1, rest=-1, hdr_cut=4, inter="early", chunker="all", fill="rand"),
-        dict(mid=4097, over=(1 << 32) - 1, rest=100, hdr_cut=47, inter="late", chunker="rand", fill="frames"),
-        dict(mid=49, over=MAXP + 2, rest=5000, hdr_cut=8, inter="spread", chunker="split", fill="rand"),
+        dict(scale="true", mid=47, over_add=1, over_abs=0, rest=-1, hdr_cut=4, inter="early", chunker="all", fill="rand"),
+        dict(scale="true", mid=4097, over_add=0, over_abs=(1 << 32) - 1, rest=100, hdr_cut=47, inter="late", chunker="rand", fill="frames"),
+        dict(scale="small", mid=47, over_add=1, over_abs=0, rest=-1, hdr_cut=4, inter="early", chunker="all", fill="rand"),
+        dict(scale="small", mid=4097, over_add=0, over_abs=(1 << 32) - 1, rest=100, hdr_cut=47, inter="late", chunker="rand", fill="frames"),
+        dict(scale="small", mid=49, over_add=2, over_abs=0, rest=5000, hdr_cut=8, inter="spread", chunker="split", fill="rand"),
+        dict(scale="small", mid=-1, over_add=1, over_abs=0, rest=-1, hdr_cut=16, inter="late", chunker="rand", fill="rand"),     # mid = Max-1
     ]
-    mids = [2, 3, 48, 4095, 4096, 65536, 1 << 20]
-    overs = [MAXP + 1, MAXP + 4096, (1 << 24) + MAXP, 1 << 28, 1 << 31, (1 << 31) + 1]
-    n = 1 if tier == "quick" else 8
+    mids = [2, 3, 48, 4095, 4096, 65536]
+    n = 2 if tier == "quick" else 10
     for _ in range(n):
-        fams.append(dict(mid=rng.choice(mids), over=rng.choice(overs), rest=rng.choice([1, 100, 5000]), hdr_cut=rng.randrange(1, 48),
+        add = rng.choice([0, 0, 1, 2, 4096])
+        fams.append(dict(scale="small", mid=rng.choice(mids), over_add=add,
+                         over_abs=0 if add else rng.choice([SMALL_MAX + 1, 1 << 24, 1 << 28, 1 << 31, (1 << 31) + 1, MAXP, MAXP + 1]),
+                         rest=rng.choice([1, 100, 5000, -1]), hdr_cut=rng.randrange(1, 48),
                          inter=rng.choice(["early", "late", "spread"]), chunker=rng.choice(["all", "rand", "split", "one"]),
                          fill=rng.choice(["rand", "frames"])))
     if tier != "quick":
-        fams.append(dict(mid=MAXP - 1, over=MAXP + 1, rest=-1, hdr_cut=16, inter="late", chunker="rand", fill="rand"))
+        fams.append(dict(scale="true", mid=-1, over_add=1, over_abs=0, rest=-1, hdr_cut=16, inter="late", chunker="rand", fill="rand"))
+        fams.append(dict(scale="true", mid=1 << 20, over_add=4096, over_abs=0, rest=5000, hdr_cut=31, inter="spread", chunker="split", fill="rand"))
     for i, f in enumerate(fams):
         f["salt"] = i + 1
     return fams
@@ -331,7 +344,8 @@ def run(c):
         fr_fams = framing_families(c.tier, rng)
         outs = {
             "framing": inp("framing", {"hdr_len": 2, "max": 3, "cases": fr_cases, "families": fr_fams,
-                                       "random_streams": 400 if quick else 6000}),
+                                       "random_streams": 800 if quick else 8000, "small_max": SMALL_MAX,
+                                       "true_every": 12 if quick else 2}),
             "hs03x": inp("hs03x", {"cases": [x for x in hs_cases if x["ver"] != "v200"], "variants": 3 if quick else 4}),
             "hs200": inp("hs200", {"cases": [x for x in hs_cases if x["ver"] == "v200"], "variants": 3 if quick else 4}),
             "blockrecv": inp("blockrecv", {"transitions": T, "walks": blockrecv_walks(T, 60 if quick else 600, 40, rng),
